@@ -12,7 +12,9 @@ ASSUMPTIONS = [
     "not a source hook; each cell is executed in a checked and in an unchecked worker and the two results are compared to "
     "1e-10 relative (the inserted checks may change vectorisation of fastmath helpers)",
     "cells = covering subset of the accepted compositions of C13 (all accepted cells in thorough) x data shapes {6x3, 3x5 (grouped components only in quick)} x "
-    "group layouts {contiguous, reversed, interleaved} x weighted penalties x fit_intercept",
+    "group layouts {contiguous, reversed, interleaved} x weighted penalties x fit_intercept; on the 3x5 shape additionally p0 = 1 "
+    "(working sets smaller than the feature / group count, 5 reversed singleton groups) and a positive group penalty with a group "
+    "larger than the number of groups",
 ]
 
 DESIGNS = {"tall6x3": A.G_TALL, "wide3x5": A.G_WIDE}
@@ -57,6 +59,29 @@ def comps(tier):
                 comp.update(penalty=ps, datafit=ds)
                 key = "|".join(map(str, cell)) + f"|{xid}|L{li}"
                 out.append((key, comp))
+                sname = comp["solver"]["name"]
+                if "p0" in R.KNOBS.get(sname, {}) and (grouped or pname in ("L1", "WeightedL1")) and xid == "wide3x5":
+                    # working sets strictly smaller than the number of features / groups
+                    c1 = dict(comp, solver=dict(name=sname, kw=dict(comp["solver"]["kw"], p0=1)))
+                    if grouped:
+                        single = ([0, 1, 2, 3, 4, 5], [4, 3, 2, 1, 0])
+                        ps1, ds1 = dict(ps), (dict(ds) if ds else ds)
+                        if "grp_ptr" in ps1:
+                            ps1.update(grp_ptr=single[0], grp_indices=single[1])
+                            for wk in ("weights", "weights_groups"):
+                                if wk in ps1:
+                                    ps1[wk] = [1.0, 2.0, 0.5, 1.5, 1.0]
+                        if ds1 is not None and "grp_ptr" in ds1:
+                            ds1.update(grp_ptr=single[0], grp_indices=single[1])
+                        c1.update(penalty=ps1, datafit=ds1)
+                    out.append((key + "|p0=1", c1))
+                if pname == "WeightedGroupL2" and lay is not None and xid == "wide3x5":
+                    # positive group penalty, an active non-negative group larger than the number of groups
+                    big = ([0, 4, 5], [0, 1, 2, 3, 4])
+                    ps2 = dict(ps, positive=True, grp_ptr=big[0], grp_indices=big[1], weights=[1.0, 2.0])
+                    ds2 = dict(ds, grp_ptr=big[0], grp_indices=big[1]) if ds is not None and "grp_ptr" in ds else ds
+                    ypos = (X @ np.array([1.0, 0.5, 2.0, 1.0, 0.0])) if kind == "reg" else y
+                    out.append((key + "|pos", dict(comp, penalty=ps2, datafit=ds2, y=ypos.tolist())))
     return out
 
 
@@ -162,7 +187,8 @@ def replay(params):
         m = pool.replay_once("c20", dict(params, leaf=True), {"NUMBA_BOUNDSCHECK": val})
         outs[mode] = m["replay"]["summary"] if "replay" in m else dict(status="died", detail=str(m))
     v = compare(outs["bc"], outs["nobc"])
-    return dict(violated=bool(v), kinds=[x[0] for x in v], checked=outs["bc"], unchecked=outs["nobc"])
+    # the unchecked run of a kernel that reads outside its arrays is not reproducible by nature: only its status is reported
+    return dict(violated=bool(v), kinds=[x[0] for x in v], checked=outs["bc"], unchecked_status=outs["nobc"].get("status"))
 
 
 def describe(tier, agg):
